@@ -302,15 +302,18 @@ def findings_descriptions():
 
 def tour_stage(rep, work, name, module, constants, systems, opts="", keys="plain", thorough=False, small=False,
                reopen=False, invariants=(), properties=(), timeout=1800, heap="4g", view="View", emit="Emit",
-               simulate=None, hworkers=16):
-    """One TLC run whose emitted tours are replayed on `systems`."""
+               simulate=None, hworkers=16, tlc_workers=1):
+    """One TLC run whose emitted tours are replayed on `systems`.  `emit` names
+    the ACTION_CONSTRAINT that prints tours (transition tours); modules that
+    enumerate cases as initial states print from an invariant instead
+    (emit=None, the printing invariant listed in `invariants`)."""
     cfgfile = "%s.%s.cfg" % (module, re.sub(r"\W", "_", name))
     write_cfg(work.path(cfgfile), constants, view=view, action_constraint=emit, invariants=invariants,
               properties=properties)
     h = Harness(work, rep.prop, systems, opts=opts, seed=rep.seed, thorough=thorough, small=small, keys=keys,
                 reopen=reopen, workers=hworkers, tag=re.sub(r"\W", "_", name))
     try:
-        res = run_tlc(work, module + ".tla", cfgfile, sink=h.stdin, workers=1, timeout=timeout, heap=heap,
+        res = run_tlc(work, module + ".tla", cfgfile, sink=h.stdin, workers=tlc_workers, timeout=timeout, heap=heap,
                       simulate=simulate)
     except Exception:
         h.p.kill()
